@@ -11,6 +11,6 @@ def run(ctx):
     from ..scen_sorter import sorter
     sorter(ctx, want_order=True, want_topn=True)     # a sorter in front of the collector forwards complete() after flushing      # the group is emitted behind --skip/--take only if the limiter forwards complete()
     from ..scen_readinput import read_input
-    read_input(ctx, ['read.ignore_silent', 'read.one_context_per_value'])     # a malformed (e.g. truncated) value does not end the run: the collection is still emitted
+    read_input(ctx, ['read.ignore_silent', 'read.recoverable_continues', 'read.one_context_per_value'])     # a malformed (e.g. truncated) value does not end the run: the collection is still emitted
     from ..conform import conformance
     conformance(ctx, ['pipeline'])      # the references the obligations are stated against, compared with jawk::go on concrete runs (validates the oracles; never decides)
